@@ -43,9 +43,12 @@ SBML_DOT = "__SBML_DOT__"
 
 UNARY = {
     "sqrt": libsbml.AST_FUNCTION_ROOT,
-    "remainder": libsbml.AST_FUNCTION_REM,
+    "exp": libsbml.AST_FUNCTION_EXP,
     "abs": libsbml.AST_FUNCTION_ABS,
+    "fabs": libsbml.AST_FUNCTION_ABS,
+    "absolute": libsbml.AST_FUNCTION_ABS,
     "ceil": libsbml.AST_FUNCTION_CEILING,
+    "floor": libsbml.AST_FUNCTION_FLOOR,
     "sin": libsbml.AST_FUNCTION_SIN,
     "cos": libsbml.AST_FUNCTION_COS,
     "tan": libsbml.AST_FUNCTION_TAN,
@@ -58,17 +61,32 @@ UNARY = {
     "arcsinh": libsbml.AST_FUNCTION_ARCSINH,
     "arccosh": libsbml.AST_FUNCTION_ARCCOSH,
     "arctanh": libsbml.AST_FUNCTION_ARCTANH,
+    "asin": libsbml.AST_FUNCTION_ARCSIN,
+    "acos": libsbml.AST_FUNCTION_ARCCOS,
+    "atan": libsbml.AST_FUNCTION_ARCTAN,
+    "asinh": libsbml.AST_FUNCTION_ARCSINH,
+    "acosh": libsbml.AST_FUNCTION_ARCCOSH,
+    "atanh": libsbml.AST_FUNCTION_ARCTANH,
     "log": libsbml.AST_FUNCTION_LN,
-    "log10": libsbml.AST_FUNCTION_LOG,
+}
+
+# logarithms with a fixed base, written as log(base, x)
+LOG_BASE = {
+    "log10": 10,
+    "log2": 2,
 }
 
 BINARY = {
     "power": libsbml.AST_POWER,
+    "pow": libsbml.AST_POWER,
+    "fmod": libsbml.AST_FUNCTION_REM,
 }
 
 NARY = {
     "max": libsbml.AST_FUNCTION_MAX,
     "min": libsbml.AST_FUNCTION_MIN,
+    "maximum": libsbml.AST_FUNCTION_MAX,
+    "minimum": libsbml.AST_FUNCTION_MIN,
 }
 
 
@@ -135,7 +153,9 @@ def _convert_binop(node: ast.BinOp) -> libsbml.ASTNode:
 
 
 def _convert_attribute(node: ast.Attribute) -> libsbml.ASTNode:
-    parent = cast(ast.Name, node.value).id
+    if not isinstance(node.value, ast.Name):
+        raise NotImplementedError(ast.unparse(node))
+    parent = node.value.id
     attr = node.attr
 
     if parent in ("math", "np", "numpy"):
@@ -181,57 +201,62 @@ def _convert_ifexp(node: ast.IfExp) -> libsbml.ASTNode:
     return sbml_node
 
 
-def _convert_direct_call(node: ast.Call) -> libsbml.ASTNode:
-    func = cast(ast.Name, node.func).id
+def _convert_known_call(name: str, node: ast.Call) -> libsbml.ASTNode:
+    """Convert a call of one of the functions in the UNARY / BINARY / NARY tables.
 
-    if (typ := UNARY.get(func)) is not None:
+    Anything else (unknown function, keyword arguments, wrong number of arguments)
+    cannot be represented and is refused.
+    """
+    n_args = len(node.args)
+    if node.keywords or any(isinstance(arg, ast.Starred) for arg in node.args):
+        msg = f"Call of {name} with keyword or starred arguments"
+        raise NotImplementedError(msg)
+
+    if name == "log" and n_args == 2:  # noqa: PLR2004
+        # math.log(x, base)
+        sbml_node = libsbml.ASTNode(libsbml.AST_FUNCTION_LOG)
+        sbml_node.addChild(_convert_node(node.args[1]))
+        sbml_node.addChild(_convert_node(node.args[0]))
+        return sbml_node
+    if (base := LOG_BASE.get(name)) is not None and n_args == 1:
+        sbml_node = libsbml.ASTNode(libsbml.AST_FUNCTION_LOG)
+        base_node = libsbml.ASTNode(libsbml.AST_INTEGER)
+        base_node.setValue(base)
+        sbml_node.addChild(base_node)
+        sbml_node.addChild(_convert_node(node.args[0]))
+        return sbml_node
+    if (typ := UNARY.get(name)) is not None and n_args == 1:
         sbml_node = libsbml.ASTNode(typ)
         sbml_node.addChild(_convert_node(node.args[0]))
         return sbml_node
-    if (typ := BINARY.get(func)) is not None:
+    if (typ := BINARY.get(name)) is not None and n_args == 2:  # noqa: PLR2004
         sbml_node = libsbml.ASTNode(typ)
         sbml_node.addChild(_convert_node(node.args[0]))
         sbml_node.addChild(_convert_node(node.args[1]))
         return sbml_node
-    if (typ := NARY.get(func)) is not None:
+    if (typ := NARY.get(name)) is not None and n_args >= 2:  # noqa: PLR2004
         sbml_node = libsbml.ASTNode(typ)
         for arg in node.args:
             sbml_node.addChild(_convert_node(arg))
         return sbml_node
 
-    # General function call
-    sbml_node = libsbml.ASTNode(libsbml.AST_FUNCTION)
-    for arg in node.args:
-        sbml_node.addChild(_convert_node(arg))
-    return sbml_node
+    msg = f"Call of {name} with {n_args} argument(s)"
+    raise NotImplementedError(msg)
+
+
+def _convert_direct_call(node: ast.Call) -> libsbml.ASTNode:
+    return _convert_known_call(cast(ast.Name, node.func).id, node)
 
 
 def _convert_library_call(node: ast.Call) -> libsbml.ASTNode:
     func = cast(ast.Attribute, node.func)
-    parent = cast(ast.Name, func.value).id
-    attr = func.attr
-
-    if parent in ("math", "np", "numpy"):
-        if (typ := UNARY.get(attr)) is not None:
-            sbml_node = libsbml.ASTNode(typ)
-            sbml_node.addChild(_convert_node(node.args[0]))
-            return sbml_node
-        if (typ := BINARY.get(attr)) is not None:
-            sbml_node = libsbml.ASTNode(typ)
-            sbml_node.addChild(_convert_node(node.args[0]))
-            sbml_node.addChild(_convert_node(node.args[1]))
-            return sbml_node
-        if (typ := NARY.get(attr)) is not None:
-            sbml_node = libsbml.ASTNode(typ)
-            for arg in node.args:
-                sbml_node.addChild(_convert_node(arg))
-            return sbml_node
-
-    # General library call
-    sbml_node = libsbml.ASTNode(libsbml.AST_FUNCTION)
-    for arg in node.args:
-        sbml_node.addChild(_convert_node(arg))
-    return sbml_node
+    if not isinstance(func.value, ast.Name) or func.value.id not in (
+        "math",
+        "np",
+        "numpy",
+    ):
+        raise NotImplementedError(ast.unparse(func))
+    return _convert_known_call(func.attr, node)
 
 
 def _convert_call(node: ast.Call) -> libsbml.ASTNode:
